@@ -51,7 +51,7 @@ static ALLOC: c16_alloc::CountingAlloc = c16_alloc::CountingAlloc;
 
 const RULE: &str = "decoders: ExtendedHeader decode+validate(+verify against a trusted header); Sample/Row/RowNamespaceData decode+verify; BadEncodingFraudProof decode+validate(header); NamespaceProof/MerkleProof/RowProof/ShareProof decode+verify; shrex codec decode_and_verify of EDS/sample/row/namespace-data responses and decode of the four request ids; shrex-sub EdsNotification; bitswap blocks through ShwapMultihasher (sample/row/row-namespace-data, id taken from the block's CID) and get_block_container; header-ex HeaderCodec read_request, and read_response followed by decode_and_verify_responses. \
 honest encodings: squares of ODS width 1,1,2,2,4 (+8,16 thorough; one with share version 1, the empty block), samples at the corners of every quadrant with row and column proofs, rows (left and right halves) 0,w-1,w,2w-1, namespace data of the first/middle/last/absent/parity namespace, bad-encoding proofs of corrupted rows/columns (EDS width 4; +8,16 thorough) and of honest squares, a signed header chain (1-3 validators, nil and absent votes), header-ex requests by origin/hash and response lists of 1..3 (thorough: 8..10) headers. \
-per honest encoding the full product of: (a) truncation at EVERY byte; (b) byte substitution {0x00,0xff,^0x01,^0x80} at positions first 256 + last 64 + within 2 of every protobuf field boundary found by a recursive wire walk (quick) / EVERY position (thorough); all 256 values at every position of the fixed-size ids, notifications and header-ex requests; (c) every single-node mutation of the protobuf tree: each varint := {0,1,2^31-1,2^31,2^32-1,2^63-1,2^63,2^64-1,i32::MIN sign-extended}, each absent field number 1..8 of every (sub)message inserted with the same 9 values / empty bytes / one byte, each bytes field {empty, first byte, last byte dropped, one byte appended, doubled, all 0x00, all 0xff}, each sub-message emptied, each field removed, each run of equal-numbered fields resized to {0,1,63,64,65,200}; (d) all PAIRS of integer mutations of (c) when the encoding has at most 200 (quick) / 2600 (thorough) of them; (e) prost Raw-type products: NMT proof start x end over the 9 values x node count {honest,0,1,63,64,65,200} x leaf_hash {honest, presence<->absence, 89 bytes, 1 byte, 91 bytes} x ignore flag; Sample proof_type {0,1,-1,2,i32::MAX,i32::MIN} x share {honest,absent,empty,511,513 bytes} x proof {honest,absent,absence form,0..200 nodes}; Row shares_half count {0,1,2,3,w-1,w+1,2w,63,64,65,200} x half_side {0,1,-1,2,i32::MAX,i32::MIN} x share size {512,0,1,511,513,64,65}; RowNamespaceData share count x share form x proof form; BadEncoding index {0,1,w-1,w,65535,65536,2^31-1,2^31,2^32-1} x height {h,h+1,2^64-1 (+0,1,2^63-1,2^63 thorough)} x axis {0,1,-1,2} x share count {w,0,1,w-1,w+1,63,64,65,200} x share form; RowProof start_row x end_row over u32 extremes x list lengths, merkle total x index; ShareProof share-proof ranges x data count x namespace version; bitswap CID height x row x column extremes and version/codec/multihash/declared-length/digest forms; shrex EDS payloads of {0..5,8,9,15,16,17,25,36,63,64,65,200 (+256,1024,1089,4096 thorough)} shares x {honest,zero,0xff bytes} x length offsets {0,-1,+1,+256}; header-ex request data x amount over the 9 values and 12 length-prefix forms, response entry count x status x body form. \
+per honest encoding the full product of: (a) truncation at EVERY byte; (b) byte substitution {0x00,0xff,^0x01,^0x80} at positions first 256 + last 64 + within 2 of every protobuf field boundary found by a recursive wire walk (quick) / EVERY position (thorough); all 256 values at every position of the fixed-size ids, notifications and header-ex requests; (c) every single-node mutation of the protobuf tree: each varint := {0,1,2^31-1,2^31,2^32-1,2^63-1,2^63,2^64-1,i32::MIN sign-extended}, each absent field number up to two past the largest present one (at most 8) of every (sub)message inserted with the same 9 values / empty bytes / one byte, each bytes field {empty, first byte, last byte dropped, one byte appended, doubled, all 0x00, all 0xff}, each sub-message emptied, each field removed, each run of equal-numbered fields resized to {0,1,63,64,65,200}; (d) all PAIRS of integer mutations of (c) when the encoding has at most 200 (quick) / 2600 (thorough) of them; (e) prost Raw-type products: NMT proof start x end over the 9 values x node count {honest,0,1,63,64,65,200} x leaf_hash {honest, presence<->absence, 89 bytes, 1 byte, 91 bytes} x ignore flag; Sample proof_type {0,1,-1,2,i32::MAX,i32::MIN} x share {honest,absent,empty,511,513 bytes} x proof {honest,absent,absence form,0..200 nodes}; Row shares_half count {0,1,2,3,w-1,w+1,2w,63,64,65,200} x half_side {0,1,-1,2,i32::MAX,i32::MIN} x share size {512,0,1,511,513,64,65}; RowNamespaceData share count x share form x proof form; BadEncoding index {0,1,w-1,w,65535,65536,2^31-1,2^31,2^32-1} x height {h,h+1,2^64-1 (+0,1,2^63-1,2^63 thorough)} x axis {0,1,-1,2} x share count {w,0,1,w-1,w+1,63,64,65,200} x share form; RowProof start_row x end_row over u32 extremes x list lengths, merkle total x index; ShareProof share-proof ranges x data count x namespace version; bitswap CID height x row x column extremes and version/codec/multihash/declared-length/digest forms; shrex EDS payloads of {0..5,8,9,15,16,17,25,36,63,64,65,200 (+256,1024,1089,4096 thorough)} shares x {honest,zero,0xff bytes} x length offsets {0,-1,+1,+256}; header-ex request data x amount over the 9 values and 12 length-prefix forms, response entry count x status x body form. \
 distinct = (decoder, honest encoding, mutation) by construction; non-trivial = every case but the unmodified honest encodings";
 
 const ALLOC_CASE_CAP: usize = 1 << 30;
@@ -69,6 +69,7 @@ struct Stat {
     fixtures: u64,
     max_peak: usize,
     sites: BTreeMap<String, u64>,
+    cpu_us: u64,
 }
 
 impl Stat {
@@ -77,6 +78,7 @@ impl Stat {
         self.ok += o.ok;
         self.panics += o.panics;
         self.fixtures += o.fixtures;
+        self.cpu_us += o.cpu_us;
         self.max_peak = self.max_peak.max(o.max_peak);
         for (k, v) in &o.err {
             *self.err.entry(k.clone()).or_insert(0) += v;
@@ -89,7 +91,7 @@ impl Stat {
         }
     }
     fn to_json(&self) -> Value {
-        json!({"cases": self.cases, "ok": self.ok, "panics": self.panics, "err": self.err, "by_kind": self.by_kind, "fixtures": self.fixtures, "max_peak_alloc_bytes": self.max_peak, "panic_sites": self.sites})
+        json!({"cases": self.cases, "ok": self.ok, "panics": self.panics, "err": self.err, "by_kind": self.by_kind, "fixtures": self.fixtures, "max_peak_alloc_bytes": self.max_peak, "panic_sites": self.sites, "cpu_ms": self.cpu_us / 1000})
     }
     fn from_json(v: &Value) -> Stat {
         let m = |k: &str| -> BTreeMap<String, u64> { v[k].as_object().map(|o| o.iter().map(|(k, v)| (k.clone(), v.as_u64().unwrap_or(0))).collect()).unwrap_or_default() };
@@ -102,6 +104,7 @@ impl Stat {
             fixtures: v["fixtures"].as_u64().unwrap_or(0),
             max_peak: v["max_peak_alloc_bytes"].as_u64().unwrap_or(0) as usize,
             sites: m("panic_sites"),
+            cpu_us: v["cpu_ms"].as_u64().unwrap_or(0) * 1000,
         }
     }
 }
@@ -154,6 +157,27 @@ fn record_violation(v: Viol) {
 
 // ------------------------------------------------------------------ one case
 
+/// Machinery self-test (never active in a normal run): with `LV_C16_SELFTEST=alloc` the
+/// harness itself asks for 8 GiB while the eds-notification decoder handles the empty input,
+/// with `LV_C16_SELFTEST=abort` it aborts there; used to show that the parent attributes a
+/// dead subprocess (`alloc-abort:<decoder>` / `crash:<family>`).
+fn selftest_hook(d: D, input: &[u8]) {
+    static MODE: std::sync::OnceLock<u8> = std::sync::OnceLock::new();
+    let mode = *MODE.get_or_init(|| match std::env::var("LV_C16_SELFTEST").ok().as_deref() {
+        Some("alloc") => 1,
+        Some("abort") => 2,
+        _ => 0,
+    });
+    if mode != 0 && d == D::EdsNotification && input.is_empty() {
+        if mode == 1 {
+            let v: Vec<u8> = Vec::with_capacity(8 << 30);
+            std::hint::black_box(&v);
+        } else {
+            std::process::abort();
+        }
+    }
+}
+
 struct Run<'a> {
     env: &'a Env,
     tier: &'static str,
@@ -175,7 +199,10 @@ fn case_json(r: &Run, mutation: &str, input: &[u8]) -> Value {
 
 fn eval(r: &Run, kind: &'static str, desc: &dyn Fn() -> String, input: &[u8], acc: &mut Acc) -> Option<Out> {
     c16_alloc::case_begin(r.di, r.fi, input);
-    let got = guard(|| c16_dec::run(r.env, r.fx, input));
+    let got = guard(|| {
+        selftest_hook(r.fx.d, input);
+        c16_dec::run(r.env, r.fx, input)
+    });
     let (peak, _biggest) = c16_alloc::case_end();
     let name = r.fx.d.name();
     let st = acc.stats.entry(name).or_default();
@@ -377,6 +404,12 @@ fn run_chunk(r: &Run, p: &Prep, c: Chunk, acc: &mut Acc) {
 
 // ------------------------------------------------------------------ child process
 
+fn thread_cpu_us() -> u64 {
+    let mut ts = libc::timespec { tv_sec: 0, tv_nsec: 0 };
+    unsafe { libc::clock_gettime(libc::CLOCK_THREAD_CPUTIME_ID, &mut ts) };
+    ts.tv_sec as u64 * 1_000_000 + ts.tv_nsec as u64 / 1000
+}
+
 fn set_rlimit() {
     let lim = libc::rlimit { rlim_cur: RLIMIT_AS_BYTES, rlim_max: RLIMIT_AS_BYTES };
     if unsafe { libc::setrlimit(libc::RLIMIT_AS, &lim) } != 0 {
@@ -441,7 +474,9 @@ fn child_family(family: &str, thorough: bool, seed: u64, budget: Duration) -> ! 
             }
             let (di, fi, f, p) = &units[*ui];
             let r = Run { env: &env, tier, di: *di, fi: *fi, fx: f };
+            let t0 = thread_cpu_us();
             run_chunk(&r, p, *c, &mut acc);
+            acc.stats.entry(f.d.name()).or_default().cpu_us += thread_cpu_us().saturating_sub(t0);
             acc
         })
         .reduce(Acc::default, Acc::merge);
@@ -606,14 +641,18 @@ fn main() {
             absorb(&mut rep, &mut stats, &family, tier, seed, o);
         }
     } else {
-        // wall budget: quick 55 s, thorough 14 min, shared by the families in sequence
-        let total = ctx.tier.pick(52.0, 840.0);
+        // Wall-clock safety caps only (the workload is sized in CPU time: about 5 CPU-minutes
+        // quick, 2 CPU-hours thorough); they are far above the expected wall time so that a
+        // loaded machine does not turn into skipped chunks, and shared by the families.
+        let total = std::env::var("LV_C16_TOTAL_S").ok().and_then(|s| s.parse().ok()).unwrap_or(ctx.tier.pick(600.0, 5400.0));
         for (i, family) in c16_dec::FAMILIES.iter().enumerate() {
             let left = (total - ctx.elapsed_s()).max(3.0);
             // a family may use what is left minus a reserve for the ones after it
             let reserve = (c16_dec::FAMILIES.len() - 1 - i) as f64 * ctx.tier.pick(4.0, 60.0);
             let budget = (left - reserve).max(3.0);
+            let t0 = ctx.elapsed_s();
             let o = spawn_child(family, ctx.tier, ctx.seed, &[("LV_C16_BUDGET_S", format!("{}", budget as u64))]);
+            eprintln!("C16: family {family} finished in {:.1}s ({})", ctx.elapsed_s() - t0, o.status);
             absorb(&mut rep, &mut stats, family, ctx.tier, ctx.seed, o);
             families_run.push(family.to_string());
         }
